@@ -129,6 +129,7 @@ func init() {
 			{Rule: "RAPID.utf8", Min: 3, Why: "ValueOfString sites"},
 			{Rule: "RAPID.any", Min: 1, Why: "genAny"},
 			{Rule: "RAPID.dispatch", Min: 4, Why: "four well-known types"},
+			{Rule: "RAPID.fresh", Min: 1, Why: "MessageGenerator"},
 			{Rule: "RAPID.url", Min: 3, Why: "WithAnyTypes, WithInterfaceHint, genAny"},
 		},
 		Explanation: "SSA/AST rules on rapidproto; see level text. Runtime-value clauses (UTF-8, round trip, URL resolvability) are not decided.",
@@ -172,8 +173,8 @@ func init() {
 		Technique: "symbolic walk of the size and marshal closures to canonical wire sentences / length polynomials, compared with the protobuf wire spec instantiated from the statically parsed descriptor",
 		DesignRef: "DESIGN.md 3.2, 3.3, 4 C04",
 		LevelText: "For every field of every generated message type (checked-in packages and packages regenerated from the working-tree templates for the schema corpus) the size closure's contribution is, as a symbolic polynomial over tag sizes, Sov(value), len(...) and nested Size(...), equal to the byte length of the wire sentence the spec prescribes, and the marshal closure writes exactly that sentence (tag bytes, payload form, guard) with every write preceded by its own cursor decrement; the buffer is make([]byte, options.Size(x)); so Size = bytes written = reference size for every value and both option settings, the cursor ends at 0 and no write is out of range. The epilogue is append(input.Buf, dAtA...) / input.Buf = dAtA and a nil message returns the input buffer unchanged. Relies on C15 (Sov/EncodeVarint) and A1 (len(options.Marshal(m)) = options.Size(m) for nested m).",
-		Engines:      E{codec.RunSize, codec.RunEnc, lib.RunVarint},
-		RulePrefixes: []string{"SIZE", "ENC.field", "ENC.total", "ENC.frame", "ENC.walk", "ENC.unknown", "L.sov", "L.soz", "L.encvarint", "L.anchor", "G.model", "G.anchor", "GEN.build"},
+		Engines:      E{codec.RunSize, codec.RunEnc, lib.RunVarint, codec.RunOpts},
+		RulePrefixes: []string{"OPTS.map", "OPTS.det", "SIZE", "ENC.field", "ENC.total", "ENC.frame", "ENC.walk", "ENC.unknown", "L.sov", "L.soz", "L.encvarint", "L.anchor", "G.model", "G.anchor", "GEN.build"},
 		Floors: []core.Floor{
 			{Rule: "SIZE.count", Min: 400, Why: "fields of S1 (255) + quick corpus"},
 			{Rule: "ENC.field", Min: 400, Why: "fields of S1 + quick corpus"},
@@ -189,7 +190,7 @@ func init() {
 		DesignRef: "DESIGN.md 3.2, 3.6, 4 C02",
 		LevelText: "For every field of every generated type (checked-in and regenerated for the corpus, 1..5-byte tags, every map key/value kind pair in the thorough tier): the bytes written are exactly tag (= protowire.AppendTag) + payload form of the kind (minimal varints: the only varint writers are runtime.EncodeVarint, proved in C15, and the recognised inline packed loop whose reserved size must equal the sum of minimal sizes), packed iff the descriptor says so, under the proto3 omission predicate; blocks appear in the back-filled buffer as unknown, oneofs in reverse declaration order, fields in descending number (= reference 'legacy' order on the wire); map entries always carry key then value; when options.Deterministic all keys are collected, sorted by a comparator that is evaluated on every ordering of two keys and must equal ascending GenericKeyOrder (false<true), and reverse-iterated into the back-filled buffer. Byte equality with the reference as an executed comparison is not decided; it is implied by the above under A3.",
 		Engines:      E{codec.RunEnc, codec.RunOpts, lib.RunVarint},
-		RulePrefixes: []string{"ENC.field", "ENC.order", "ENC.total", "ENC.frame", "ENC.walk", "ENC.unknown", "DET.map", "DET.flow", "OPTS.det", "L.sov", "L.soz", "L.encvarint", "L.anchor", "G.model", "G.anchor", "GEN.build"},
+		RulePrefixes: []string{"ENC.field", "ENC.order", "ENC.total", "ENC.frame", "ENC.walk", "ENC.unknown", "DET.map", "DET.flow", "OPTS.det", "OPTS.map", "L.sov", "L.soz", "L.encvarint", "L.anchor", "G.model", "G.anchor", "GEN.build"},
 		Floors: []core.Floor{
 			{Rule: "ENC.field", Min: 400, Why: "fields of S1 + quick corpus"},
 			{Rule: "ENC.order", Min: 300, Why: "plain fields + oneofs"},
@@ -203,8 +204,8 @@ func init() {
 		Technique: "symbolic walks of the marshal and unmarshal closures to canonical per-field summaries, each compared with the wire spec so that encode and decode forms are mutually inverse per kind",
 		DesignRef: "DESIGN.md 3.2, 3.4, 4 C01",
 		LevelText: "Per field of every generated type: the encoder's payload form and the decoder's read form are the inverse pair the spec prescribes for the kind (varint<->varint accumulated from a zeroed variable of the Go type, zig-zag encode/decode forms, little-endian fixed 4/8, Float bits/frombits so NaN payloads and -0 survive bit-exactly, copy for string/bytes, nested Marshal/Unmarshal through the same options); the decoder has exactly one arm per schema field storing into the Go field mapped to that number, accepting exactly the declared wire type(s); oneof members are emitted unconditionally and decoded as their wrapper; unknown bytes are emitted verbatim and collected verbatim; the encoder's omission guard is the proto3 presence predicate (so a skipped value is the zero value the decoder leaves); marshal's only error return is a nested Marshal error. Not decided: equality of the decoded value for all inputs as an executed comparison (follows from the inverse pairs under A3-A5); UTF-8 validity.",
-		Engines:      E{codec.RunEnc, codec.RunSize, codec.RunDec, codec.RunSkip, lib.RunVarint},
-		RulePrefixes: []string{"ENC", "DEC.form", "DEC.wire", "DEC.cases", "DEC.frame", "DEC.walk", "SIZE.count", "SIZE.walk", "UNK.default", "L.skip", "L.sov", "L.soz", "L.encvarint", "L.anchor", "G.model", "G.anchor", "GEN.build"},
+		Engines:      E{codec.RunEnc, codec.RunSize, codec.RunDec, codec.RunSkip, lib.RunVarint, codec.RunOpts},
+		RulePrefixes: []string{"OPTS", "ENC", "DEC.form", "DEC.wire", "DEC.cases", "DEC.frame", "DEC.walk", "SIZE.count", "SIZE.walk", "UNK.default", "L.skip", "L.sov", "L.soz", "L.encvarint", "L.anchor", "G.model", "G.anchor", "GEN.build"},
 		Floors: []core.Floor{
 			{Rule: "ENC.field", Min: 400, Why: "fields"},
 			{Rule: "DEC.form", Min: 400, Why: "arms"},
@@ -218,8 +219,8 @@ func init() {
 		Technique: "symbolic interpretation of every decode arm (value provenance from zeroed accumulators, store operation, cursor discipline) compared with the decoding rules of the wire spec; option-mapping table for nested decodes",
 		DesignRef: "DESIGN.md 3.4, 3.9, 4 C03",
 		LevelText: "Per arm of every generated decoder: scalars are assigned from a varint accumulated into a zeroed variable (last wins, no residue of an earlier occurrence), repeated fields append, repeated numerics accept the element wire type and the packed form whose loop runs the same element reader until the payload end (so split runs and mixed forms concatenate), oneof members replace the interface value, map entries read key and value per record with defaults from zero-valued variables and store after the whole entry, singular messages decode into the existing value allocated only when nil, nested decodes use options.Unmarshal of the closure's options whose Merge flag is true (OPTS.merge), every other wire type is an error, the cursor ends exactly at the payload end. Concatenation = merge because the loop is a left fold over records. Open findings are reported as KNOWN-FINDING (F5 oneof message members, F6 map default, F16 varint map keys/values). Not decided: equality with the reference decoder on every stream as an executed comparison.",
-		Engines:      E{codec.RunDec, codec.RunOpts, codec.RunSkip},
-		RulePrefixes: []string{"DEC", "OPTS.merge", "OPTS.map", "L.skip", "G.model", "G.anchor", "GEN.build"},
+		Engines:      E{codec.RunDec, codec.RunOpts, codec.RunSkip, refl.RunCoh},
+		RulePrefixes: []string{"DEC", "OPTS.merge", "OPTS.map", "COH.msgindex", "L.skip", "G.model", "G.anchor", "GEN.build"},
 		Floors: []core.Floor{
 			{Rule: "DEC.form", Min: 400, Why: "arms"},
 			{Rule: "DEC.wire", Min: 400, Why: "arms"},
@@ -367,6 +368,7 @@ func init() {
 		RulePrefixes: []string{"COH", "NIL.getter", "G.model", "G.anchor", "GEN.build"},
 		Floors: []core.Floor{
 			{Rule: "COH.rawdesc", Min: 15, Why: "generated files"},
+			{Rule: "COH.initchain", Min: 4, Why: "same-package imports in testpb, test3 and the corpus"},
 			{Rule: "COH.proto", Min: 6, Why: "six checked-in generated files with a .proto next to them"},
 			{Rule: "COH.gotypes", Min: 15, Why: "generated files"},
 			{Rule: "COH.depidx", Min: 15, Why: "generated files"},
